@@ -21,6 +21,8 @@ def load_impl(case, newick=None, xml=None, **kw):
     nw = newick if newick is not None else case.newick()
     x = xml if xml is not None else case.xml()
     args = dict(use_internal_name=case.use_internal, orthoXML_as_string=True)
+    if getattr(case, 'oma', False):
+        args['species_resolve_mode'] = 'OMA'
     args.update(kw)
     try:
         ham = pyham.Ham(nw, x, **args)
